@@ -169,3 +169,28 @@ fn c18_reported_size_is_node_count_at_every_stage() {
     }
     println!("CASES c18_stages {cases}");
 }
+
+/// D29 (recorded): the result of an SLOAD whose key is itself an SLOAD result holds that key TWICE (the load node and the
+/// unwritten-value placeholder under it), and neither wrapper is subject to the size limit, so every link of an SLOAD chain
+/// doubles the value (and the analysis time with it).  Measured deterministically by the reported sizes on a short chain.
+#[test]
+fn c18_nested_sload_results_double() {
+    use storage_layout_extractor::{disassembly::InstructionStream, vm::{Config, VM}, watchdog::LazyWatchdog};
+    let mut cases = 0;
+    for links in [2usize, 4, 8] {
+        let mut code = vec![0x36u8];
+        code.extend(std::iter::repeat(0x54).take(links));
+        code.extend([0x5f, 0x55, 0x00]);
+        let limit = 10usize;
+        let is = InstructionStream::try_from(code.as_slice()).unwrap();
+        let mut vm = VM::new(is, Config::default().with_value_size_limit(limit), LazyWatchdog.in_rc()).unwrap();
+        let _ = vm.execute();
+        let res = vm.consume();
+        cases += 1;
+        let biggest = res.all_values().iter().map(|v| v.size()).max().unwrap_or(0);
+        if biggest > 3 * limit + 2 {
+            witness("C18", "vs.instruction_result_within_limit.d29_nested_storage_wrappers_double", format!("CALLDATASIZE followed by {links} SLOADs, stored: {code:02x?} limit={limit}"), format!("a value of {biggest} nodes"), format!("<= {limit} (at most {} for a storage wrapper around a key and a value within the limit)", 3 * limit + 2));
+        }
+    }
+    println!("CASES c18_nested_sload {cases}");
+}
